@@ -55,6 +55,11 @@ def cases(tier):
         for n in range(2, 9):
             out.append(dict(name="gate_np_%s_n%d" % ("+".join(map(str, alphas)), n), kind="gate", pi="nonparametric",
                             alphas=alphas, n=n, need=need, weight=n))
+    # two levels whose splits differ (minimum for 0.8 in binary64: ceil(1.8 / 0.19999999999999996) = 10): each level must get its own split
+    for alphas in ([0.5, 0.8], [0.8, 0.5]):
+        for n in (9, 10, 11):
+            out.append(dict(name="gate_np_%s_n%d" % ("+".join(map(str, alphas)), n), kind="gate", pi="nonparametric",
+                            alphas=alphas, n=n, need=max(math.ceil((1 + a) / (1 - a)) for a in alphas), weight=n))
     for n in range(5, 9):
         out.append(dict(name="gate_ga_n%d" % n, kind="gate", pi="gaussian", alphas=[0.7], n=n, need=7, weight=n))
     for n in (9, 10, 11):
@@ -217,6 +222,23 @@ def run_gate(ctx, case):
     out, r = _client_outcome(ctx, case, units, **extra)
     obl = [("gate: %d reporting units, %d needed -> %s" % (n, need, "estimate" if n >= need else "dedicated error"),
             out == ("completed" if n >= need else "not-enough"))]
+    if r is not None and case["pi"] == "nonparametric":
+        # every level is fitted on its own split: floor(n * conf_frac(level)) training rows (at least one), the rest held out for
+        # calibration, and the calibration rank alpha * (1 + 1 / n_cal) stays a valid quantile
+        from elexmodel.models.NonparametricElectionModel import NonparametricElectionModel as NPM
+
+        mdl = NPM({})
+        for a in case["alphas"]:
+            tr = max(math.floor(n * mdl._compute_conf_frac(n, a)), 1)
+            n_cal = n - tr
+            fits = [c_ for c_ in r.qr.calls if any(abs(float(t) - q) < 1e-12 for q in ((1 - a) / 2, (1 + a) / 2)
+                                                    for t in ([c_["taus"]] if isinstance(c_["taus"], float) else list(c_["taus"])))]
+            obl.append(("level %s: lower and upper quantile fits exist" % a, len(fits) >= 2))
+            for f in fits:
+                obl.append(("level %s: the interval fit uses floor(n * conf_frac) = %d training rows, %d held out" % (a, tr, n_cal),
+                            np.asarray(f["y"], dtype=object).shape[0] == tr))
+            obl.append(("level %s: at least one calibration unit and rank alpha*(1+1/n_cal) <= 1" % a,
+                        n_cal >= 1 and a * (1 + 1 / max(n_cal, 1)) <= 1))
     return obl, (P.tables_out(r.res) if r is not None else {})
 
 
